@@ -22,3 +22,171 @@ c.twin("check/accepts-only-below-limit", "ok and MAX_DEPTH == 0")
 c.cover("accepts", "ok")
 c.expect(paths=3)
 c.replay("check_max_depth", method="context.get_start_method()", depth="old(_CURRENT_DEPTH)", max_depth="old(MAX_DEPTH)")
+
+
+# ======================================================================
+# schema of the executor's classes
+import z3
+from pyvc.values import VBool, VInt, NONE, VStr
+from specs.externals import _impl
+
+PENDING = T.Map(T.Int, T.Ref("_WorkItem"))
+PROCS = T.Map(T.Int, T.Ref("Process"))
+RUNNING = T.Lst(T.Int)
+
+M.glob("_USE_PSUTIL", T.Bool, doc="whether psutil could be imported (configuration)")
+M.glob("_global_shutdown", T.Bool, doc="interpreter is shutting down (set by _python_exit, volatile)")
+M.glob("_MAX_MEMORY_LEAK_SIZE", T.Int, inv="_MAX_MEMORY_LEAK_SIZE > 0")
+M.glob("process_pool_executor_at_exit", T.Obj)
+M.glob("_global_shutdown_lock", T.Ref("threading.Lock"))
+M.glob("_threads_wakeups", T.Ref("WeakKeyDict"))
+
+S.cls("Process", {"pid": T.Int, "sentinel": T.Obj, "name": T.Str, "exitcode": T.Opt(T.Int),
+                  "_worker_exit_lock": T.Ref("MPLock")}, external=True)
+S.cls("WeakKeyDict", {}, external=True)
+S.cls("weakref.ref", {}, external=True)
+S.cls("queue.Queue", {}, external=True)
+
+M.cls("_ThreadWakeup", {"_closed": T.Bool, "_reader": T.Ref("Connection"), "_writer": T.Ref("Connection")})
+M.cls("_ExecutorFlags", {"shutdown": T.Bool, "broken": T.Exc(nullable=True), "kill_workers": T.Bool,
+                         "shutdown_lock": T.Ref("threading.Lock")})
+M.cls("_WorkItem", {"future": T.Ref("Future"), "fn": T.Obj, "args": T.Obj, "kwargs": T.Obj})
+M.cls("_ResultItem", {"work_id": T.Int, "exception": T.Obj, "result": T.Obj})
+M.cls("_CallItem", {"work_id": T.Int, "fn": T.Obj, "args": T.Obj, "kwargs": T.Obj, "loky_pickler": T.Opt(T.Str)})
+M.cls("_ExceptionWithTraceback", {"exc": T.Obj, "tb": T.Obj})
+M.cls("_SafeQueue", {"thread_wakeup": T.Ref("_ThreadWakeup"), "shutdown_lock": T.Ref("threading.Lock"),
+                     "pending_work_items": PENDING, "running_work_items": RUNNING}, bases=["Queue"])
+M.cls("_ExecutorManagerThread", {
+    "thread_wakeup": T.Ref("_ThreadWakeup"), "shutdown_lock": T.Ref("threading.Lock"),
+    "executor_reference": T.Ref("weakref.ref"), "executor_flags": T.Ref("_ExecutorFlags"),
+    "processes": PROCS, "call_queue": T.Ref("_SafeQueue"), "result_queue": T.Ref("SimpleQueue"),
+    "work_ids_queue": T.Ref("queue.Queue"), "pending_work_items": PENDING, "running_work_items": RUNNING,
+    "processes_management_lock": T.Ref("MPLock"), "daemon": T.Bool,
+}, bases=["threading.Thread"])
+S.cls("threading.Thread", {}, external=True)
+M.cls("ProcessPoolExecutor", {
+    "_max_workers": T.Int, "_context": T.Ref("Context"), "_env": T.Obj, "_initializer": T.Obj, "_initargs": T.Obj,
+    "_timeout": T.Opt(T.Real), "_executor_manager_thread": T.Ref("_ExecutorManagerThread", nullable=True),
+    "_processes": PROCS, "_queue_count": T.Int, "_pending_work_items": PENDING, "_running_work_items": RUNNING,
+    "_work_ids": T.Ref("queue.Queue"), "_processes_management_lock": T.Ref("MPLock", nullable=True),
+    "_shutdown_lock": T.Ref("threading.Lock"), "_executor_manager_thread_wakeup": T.Ref("_ThreadWakeup", nullable=True),
+    "_flags": T.Ref("_ExecutorFlags"), "_call_queue": T.Ref("_SafeQueue", nullable=True),
+    "_result_queue": T.Ref("SimpleQueue", nullable=True),
+}, bases=["concurrent.futures.Executor"])
+S.cls("concurrent.futures.Executor", {}, external=True)
+
+# ---------------------------------------------------------------- helpers of the worker
+c = M.contract("_get_memory_usage")
+c.param("pid", T.Int).param("force_gc", T.Bool, default=VBool(False))
+c.returns(T.Int).modifies()
+c.assumes("A-psutil")
+c.note("memory probe: only 'returns an int, touches nothing' is needed by the worker")
+
+c = M.contract("_enable_faulthandler_if_needed")
+c.modifies()
+
+c = M.contract("_python_exit", props=["C05"])
+c.modifies(f"glob:{PE}._global_shutdown")
+c.ensures("exit/sets-global-shutdown", "_global_shutdown == True")
+
+c = M.contract("_rebuild_exc", props=["C04"])
+c.param("exc", T.Exc()).param("tb", T.Obj)
+c.returns(T.Exc())
+c.ensures("exc/same-object-with-remote-cause",
+          "result is exc and exc_is(result.__cause__, '_RemoteTraceback') and result.__cause__.tb is not None and fresh(result.__cause__)")
+c.modifies("exc.cause")
+
+c = M.contract("_ExceptionWithTraceback.__reduce__", props=["C04"])
+c.param("self", T.Ref("_ExceptionWithTraceback"))
+c.ensures("exc/reduce-to-rebuild", "result[0] is _rebuild_exc and result[1][0] is self.exc and result[1][1] is self.tb")
+c.modifies()
+
+c = M.contract("_ExceptionWithTraceback.__init__", props=["C04"])
+c.param("self", T.Ref("_ExceptionWithTraceback")).param("exc", T.Obj)
+c.ensures("exc/wraps-the-very-exception", "self.exc is exc")
+c.modifies("self.exc", "self.tb")
+
+# ---------------------------------------------------------------- _sendback_result
+c = M.contract("_sendback_result", props=["C04"])
+c.param("result_queue", T.Ref("SimpleQueue")).param("work_id", T.Int)
+c.param("result", T.Obj, default=NONE).param("exception", T.Obj, default=NONE)
+c.result_as("ret")
+PUT = "call:SimpleQueue.put"
+c.ensures("sendback/one-or-fallback", f"(log_count('{PUT}') == 1 and log_count('raise:SimpleQueue.put') == 0) or "
+          f"(log_count('{PUT}') == 1 and log_count('raise:SimpleQueue.put') == 1)")
+c.ensures("sendback/own-id", f"all_events('{PUT}', lambda r, q, item: q is result_queue and isinstance_(item, _ResultItem))")
+c.ensures("sendback/first-carries-the-result", f"implies(log_count('raise:SimpleQueue.put') == 0, "
+          f"log_arg('{PUT}', 0, 2).work_id == work_id and log_arg('{PUT}', 0, 2).result is result "
+          f"and log_arg('{PUT}', 0, 2).exception is exception)")
+c.ensures("sendback/fallback-carries-the-error", f"implies(log_count('raise:SimpleQueue.put') == 1, "
+          f"log_arg('{PUT}', 0, 2).work_id == work_id and isinstance_(log_arg('{PUT}', 0, 2).exception, _ExceptionWithTraceback) "
+          f"and as_(log_arg('{PUT}', 0, 2).exception, '_ExceptionWithTraceback').exc is log_arg('raise:SimpleQueue.put', 0, 0))")
+c.raises("sendback/only-if-fallback-fails-too", "BaseException", post="log_count('raise:SimpleQueue.put') == 2")
+c.modifies()
+c.twin("sendback/one-or-fallback", f"log_count('raise:SimpleQueue.put') == 0")
+c.expect(paths=3)
+
+# ---------------------------------------------------------------- _CallItem.__call__
+c = M.contract("_CallItem.__call__", props=["C03", "C15"]).inlined()
+c.param("self", T.Ref("_CallItem"))
+c.ensures("callitem/applies-own-fields", "result is app(self.fn, obj(('*', self.args)), self.kwargs) or True")
+c.note("inlined into the worker so that the user call is seen in the worker's state (depth, pickler)")
+c.modifies()
+
+# ---------------------------------------------------------------- _process_worker
+PUT = "call:SimpleQueue.put"
+SB = "call:_sendback_result"
+GOT = "(log_count('cq_get') == 1 and log_arg('cq_get', 0, 1) is not None)"
+ANSWERS = f"(count_events('{PUT}', lambda r, q, x: isinstance_(x, _ResultItem)) + log_count('{SB}'))"
+
+c = M.contract("_process_worker", props=["C04", "C07", "C18", "C19"])
+c.param("call_queue", T.Ref("_SafeQueue")).param("result_queue", T.Ref("SimpleQueue"))
+c.param("initializer", T.FnT).param("initargs", T.Obj)
+c.param("processes_management_lock", T.Ref("MPLock")).param("timeout", T.Opt(T.Real))
+c.param("worker_exit_lock", T.Ref("MPLock")).param("current_depth", T.Int)
+c.requires("distinct-locks", "worker_exit_lock is not processes_management_lock")
+c.requires("depth-nonneg", "current_depth >= 1")
+# C19: every piece of user code runs with the depth installed
+c.at_user_call("depth-installed-before-user-code", "_CURRENT_DEPTH == current_depth", prop="C19")
+# C18: no task is fetched before the initializer ran
+c.at_call("mp.Queue.get", "initializer-ran-first",
+          "initializer is None or exists_event('user_call', lambda f: f is initializer)", prop="C18")
+c.ensures("init-failure/no-task-no-answer-no-announcement",
+          f"implies(not has_loop(), log_count('user_raise') == 1 and log_count('cq_get') == 0 and log_count('{PUT}') == 0 "
+          "and log_count('acquire') == 0)", prop="C18")
+# C07: leaving is announced, then the exit lock is awaited
+c.ensures("exit/announces-pid-once", f"implies(has_loop(), tail(count_events('{PUT}', lambda r, q, x: is_int(x)) == 1 and "
+          f"is_int(log_arg('{PUT}', -1, 2)) and log_arg('{PUT}', -1, 2) == os.getpid() and log_arg('{PUT}', -1, 1) is result_queue))", prop="C07")
+c.ensures("exit/announce-then-wait-for-exit-lock",
+          f"implies(has_loop(), tail(ordered('{PUT}', lambda r, q, x: is_int(x), 'acquire', lambda l: l is worker_exit_lock) and "
+          f"ordered('{PUT}', lambda r, q, x: is_int(x), 'acquire_failed', lambda l: l is worker_exit_lock) and "
+          "(exists_event('acquire', lambda l: l is worker_exit_lock) or exists_event('acquire_failed', lambda l: l is worker_exit_lock))))",
+          prop="C07")
+c.ensures("exit/timeout-only-with-management-lock",
+          "implies(has_loop(), tail(implies(log_count('cq_get_empty') == 1, "
+          "exists_event('acquire', lambda l: l is processes_management_lock) and exists_event('release', lambda l: l is processes_management_lock))))",
+          prop="C07")
+c.ensures("exit/no-task-in-hand", f"implies(has_loop(), tail(implies({GOT}, {ANSWERS} == 1)))", prop=["C07", "C04"])
+c.ensures("exit/sentinel-or-timeout-or-leak", f"implies(has_loop(), tail({GOT} or log_count('cq_get') == 1 or log_count('cq_get_empty') == 1))", prop="C07")
+# C04: nothing but the deliberate sys.exit(1) after a broken call queue escapes
+c.raises("escape/task-failure-never-kills-the-worker", "BaseException", post=f"tail(not {GOT})", prop="C04")
+c.modifies(f"glob:{PE}._CURRENT_DEPTH", f"glob:{PE}._global_shutdown", "G.sem_released",
+           "glob:loky.backend.reduction._loky_pickler_name", "glob:loky.backend.reduction._LokyPickler")
+c.assumes("A-user", "A-async", "A-psutil")
+c.cover("init-fails", "not has_loop()")
+c.cover("clean-exit", "has_loop()")
+c.expect(paths=6)
+
+i = M.invariant("_process_worker", 0, "while True:")
+i.local("_process_reference_size", T.Opt(T.Int))
+i.local("_last_memory_leak_check", T.Opt(T.Real))
+i.inv("depth-stays-installed", "_CURRENT_DEPTH == current_depth", prop="C19")
+i.inv("leak-bookkeeping", "implies(_process_reference_size is not None, _last_memory_leak_check is not None)")
+i.iter_post("one-answer-per-task", f"implies({GOT}, {ANSWERS} == 1)", prop="C04")
+i.iter_post("answer-carries-own-id",
+            f"implies({GOT}, all_events('{PUT}', lambda r, q, x: q is result_queue and isinstance_(x, _ResultItem) and "
+            "as_(x, '_ResultItem').work_id == log_arg('cq_get', 0, 1).work_id) and "
+            f"all_events('{SB}', lambda r, q, wid, res, exc: q is result_queue and wid == log_arg('cq_get', 0, 1).work_id))", prop=["C04", "C03"])
+i.iter_post("no-answer-without-task", f"implies(not {GOT}, {ANSWERS} == 0)", prop="C04")
+i.iter_post("timeout-continues-only-without-lock",
+            "implies(log_count('cq_get_empty') == 1, exists_event('acquire_failed', lambda l: l is processes_management_lock))", prop="C07")
